@@ -63,7 +63,7 @@ ASSUMPTIONS = [
     "stored segment inside the model's domain: one moof directly followed by one mdat, one traf with exactly one tfhd and one trun, "
     "at most one tfdt/saio/senc, a senc has >= 1 sample entry and a saiz peer, typed boxes stored with canonical sizes",
     "re-encoding a senc/PIFF box preserves the length of every sample entry (entries are opaque; see final report: flags|=2 defect reported to C04)",
-    "origin_time >= 0 (LiveMedia handler); videoCorruption (vcorrupt) not requested; MPS routes not exercised",
+    "videoCorruption (vcorrupt) not requested; the multi-period routes (ServeMpsMedia) are exercised on a fixed two-period stream only (new tfdt time is read from the served bytes, so a negative origin_time needs no model change)",
     "a request answered 500 is counted as a failure of the property (no segment served) only for option vectors inside the quantifier",
 ]
 
@@ -184,6 +184,11 @@ def synth_stream(spec: dict) -> list[Track]:
             tracks[f"{sid}_{kind[0]}"] = mp4synth.make_track(kind=kind, **kw)
     first = next(iter(tracks))
     mp4synth.register(app(), sid, sid, tracks, timing_from=first)
+    if spec.get("defaults_cgi"):
+        with app().ctx() as models:
+            st = models.Stream.get(directory=sid)
+            st.defaults = stored_defaults(spec["defaults_cgi"])
+            models.db.session.commit()
     if spec.get("aligned"):
         # index every media segment from its first leading box (styp/sidx/emsg) instead of
         # from the moof: a layout Representation.load does not produce but the handler accepts
@@ -298,6 +303,48 @@ def fixed_specs() -> list[dict]:
     return out
 
 
+def boundary_specs() -> list[dict]:
+    """numeric / structural boundaries (CHECKLIST 2, 4): decode times 2^32-1, 2^32, 2^32+k with the tfdt
+    absent (inserted, grows), stored as v0 at its maximum, stored as v1; one- and two-sample segments;
+    timescales 1, 30000 (NTSC 1001 multiples), 10^7; fragments numbered from 0 and from 7; first decode
+    time != 0; 64-bit largesize mdat / moof headers; a pssh box inside the moof; stream-level option defaults"""
+    b = 2 ** 32
+    return [
+        # tfdt absent: inserted value = sum of the previous durations = 2^32-1, 2^32, 2^32+5
+        {"video": dict(timescale=10_000_000, durations=[b - 1, 1, 5, 960], samples_per_segment=[1, 1, 2, 3],
+                       with_tfdt=False, start_number=0, payload_size=30, seed=9101),
+         "audio": None, "aligned": False},
+        # stored 32-bit tfdt at its maximum, then 64 bit; encrypted; numbered from 7
+        {"video": dict(timescale=240, durations=[960, 1, 4, 960], samples_per_segment=[2, 1, 1, 3],
+                       first_decode_time=b - 1 - 960, with_tfdt=True, start_number=7, encrypted=True, iv_size=16,
+                       subsamples=True, payload_size=30, seed=9102, traf_order="trun,senc,saiz,saio"),
+         "audio": dict(timescale=1, durations=[2, 2, 2, 2], samples_per_segment=[2, 1, 2, 1], track_id=2,
+                       payload_size=20, seed=9103, first_decode_time=3),
+         "aligned": False},
+        # NTSC timescale, stored v1 tfdt with a small value, largesize mdat, pssh in the moof, sidx/styp lead
+        {"video": dict(timescale=30000, durations=[120120, 120120, 60060], samples_per_segment=[1, 2, 3],
+                       first_decode_time=1001, tfdt_version=1, encrypted=True, iv_size=8, subsamples=True,
+                       largesize=["mdat"], moof_pssh=True, with_styp=True, with_sidx=True, payload_size=40,
+                       seed=9104, traf_order="senc_first"),
+         "audio": dict(timescale=48000, durations=[192192, 192192, 96096], samples_per_segment=[3, 3, 2], track_id=2,
+                       encrypted=True, subsamples=False, largesize=["mdat"], moof_pssh="before", payload_size=40,
+                       seed=9105, base="absolute"),
+         "aligned": True},
+        # largesize moof (outside the layout model: judged by the oracle only) and largesize mdat, clear
+        {"video": dict(timescale=240, durations=[960, 960], samples_per_segment=[2, 3], largesize=["moof", "mdat"],
+                       moof_pssh="before", base="absolute", payload_size=40, seed=9106),
+         "audio": None, "aligned": False},
+        # options that arrive through the stream's stored defaults instead of the URL
+        {"video": dict(timescale=240, durations=[960, 1000, 900], samples_per_segment=[3, 4, 2], encrypted=True,
+                       iv_size=8, subsamples=True, payload_size=40, seed=9107, with_tfdt=False),
+         "audio": dict(timescale=48000, durations=[192000] * 3, samples_per_segment=[3, 3, 3], track_id=2,
+                       encrypted=True, subsamples=False, payload_size=40, seed=9108, traf_order="senc_first"),
+         "aligned": False,
+         "defaults_cgi": {"bugs": "saio", "playready__piff": "0", "playready__version": "1.0", "events": "ping",
+                          "ping__interval": "50"}},
+    ]
+
+
 def reader_window() -> tuple[int, int]:
     """(buffersize, max_buffers) of the BufferedReader `load_fragment` reads a stored segment
     through – looked up from the code under test so that a changed default is followed"""
@@ -391,6 +438,32 @@ def gen_options(rng, t: Track, far: bool = False) -> dict:
 
 def query_of(ov: dict) -> str:
     return urllib.parse.urlencode(ov)
+
+
+def stored_defaults(cgi: dict) -> dict:
+    """Stream.defaults (stored JSON form) for a few options given in CGI spelling"""
+    out: dict = {}
+    for k, v in cgi.items():
+        if k == "bugs":
+            out["bugCompatibility"] = v.split(",")
+        elif k == "events":
+            out["eventTypes"] = v.split(",")
+        elif k == "playready__piff":
+            out.setdefault("playready", {})["piff"] = v == "1"
+        elif k == "playready__version":
+            out.setdefault("playready", {})["version"] = float(v)
+        elif "__" in k:
+            pfx, name = k.split("__")
+            out.setdefault(pfx, {})[name] = int(v)
+        else:
+            raise KeyError(k)
+    return out
+
+
+def eff_ov(t: "Track", ov: dict) -> dict:
+    """the option vector in force: the stream's stored defaults overridden by the URL"""
+    d = t.spec.get("synth", {}).get("defaults_cgi") if isinstance(t.spec, dict) else None
+    return dict(d, **ov) if d else ov
 
 
 def piffs_of(ov: dict) -> int:
@@ -503,16 +576,48 @@ def gen_cases(rng, tracks: list[Track], n: int, live_share: float = .25) -> list
 
 # --------------------------------------------------------------------------- running one case
 
+_MPS: dict = {}
+
+
+def ensure_mps() -> dict:
+    """multi-period stream `c03mps` (created once per process through the DB models): period p1 =
+    stream bbb from 0 for 20 s, period p2 = stream tears from 20 s for 12.5 s (fractional).
+    Returns {'p1': pk, 'p2': pk}"""
+    if _MPS:
+        return _MPS
+    fixture_tracks()
+    with app().ctx() as models:
+        from dashlive.mpeg.dash.content_role import ContentRole
+        mps = models.MultiPeriodStream(name="c03mps", title="C03 multi-period stream")
+        models.db.session.add(mps)
+        rows = {}
+        for idx, (pid, d, start, dur) in enumerate((("p1", "bbb", 0.0, 20.0), ("p2", "tears", 20.0, 12.5)), 1):
+            stream = models.Stream.get(directory=d)
+            prd = models.Period(pid=pid, parent=mps, ordering=idx, stream=stream,
+                                start=datetime.timedelta(seconds=start), duration=datetime.timedelta(seconds=dur))
+            models.db.session.add(prd)
+            for tid, ct in ((1, "video"), (2, "audio")):
+                models.db.session.add(models.AdaptationSet(
+                    period=prd, track_id=tid, role=ContentRole.MAIN, content_type=models.ContentType.get(name=ct)))
+            rows[pid] = prd
+        models.db.session.commit()
+        _MPS.update({pid: prd.pk for pid, prd in rows.items()})
+    return _MPS
+
+
 def fetch(case: dict):
     import appboot
+    url = case["url"]
+    if "{p" in url:
+        url = url.format(**ensure_mps())
     with appboot.Clock(case["now"]):
-        return app().client().get(case["url"])
+        return app().client().get(url)
 
 
 def run_case(case: dict) -> dict:
     """real request + oracle; returns a result dict (driver line under 'line' when in the model's domain)"""
     t = track_of(case["src"])
-    ov = case["ov"]
+    ov = eff_ov(t, case["ov"])
     bug = ov.get("bugs") == "saio"
     r = fetch(case)
     res: dict = {"status": r.status_code, "fails": [], "track": t}
@@ -643,8 +748,9 @@ def nontrivial_key(res: dict, case: dict):
     pre = tuple(c03_layout.tname(b) for b in lay["pre"])
     post = tuple(c03_layout.tname(b) for b in lay["post"])
     grew = view.get("tfdtv") == "1" and ("tfdt:0:" in toks[2] or not lay["has_tfdt"])
-    return (pre, post, kinds, t.enc, piffs_of(case["ov"]) if t.enc else 0, min(res.get("n_emsg", 0), 2),
-            case["ov"].get("bugs") == "saio", lay["has_tfdt"], grew, case["mode"], case["addr"])
+    eov = eff_ov(t, case["ov"])
+    return (pre, post, kinds, t.enc, piffs_of(eov) if t.enc else 0, min(res.get("n_emsg", 0), 2),
+            eov.get("bugs") == "saio", lay["has_tfdt"], grew, case["mode"], case["addr"])
 
 
 def evaluate(cases: list[dict], ch: Channel) -> None:
@@ -723,7 +829,8 @@ def evaluate(cases: list[dict], ch: Channel) -> None:
                                           else "inside-mdat" if stale < p0 + int(model["plen"]) else "behind-mdat"))
         for flag, name in ((r["n_emsg"] > 0, "emsg-inserted"), (lay["has_sidx"], "sidx-removed"),
                            (not lay["has_tfdt"], "tfdt-inserted"), (model.get("tfdtv") == "1", "tfdt-64bit"),
-                           (c["ov"].get("bugs") == "saio", "bugs=saio"), (t.enc and piffs_of(c["ov"]) > 0, "piff-inserted"),
+                           (eff_ov(t, c["ov"]).get("bugs") == "saio", "bugs=saio"),
+                           (t.enc and piffs_of(eff_ov(t, c["ov"])) > 0, "piff-inserted"),
                            ("patches" in model and model["patches"] != "-", "pass2-patch")):
             if flag:
                 ch.count(name)
@@ -749,6 +856,168 @@ def all_tracks(rng, n_streams: int) -> list[Track]:
     return tracks
 
 
+VOD_NOW = "2024-02-03T04:05:06Z"
+SEMANTIC_KEYS = ("drm", "playready__piff", "playready__version", "bugs", "events")
+
+
+def vod_case(t: Track, k: int, ov: dict, addr: str = "number") -> dict:
+    return {"src": t.spec, "mode": "vod", "addr": addr, "url": vod_url(t, k, ov, addr), "now": VOD_NOW, "ov": ov}
+
+
+def followed_cases(t: Track, mode: str, ov: dict, addr: str, now: str, start: Optional[str] = None,
+                   limit: int = 3) -> list[dict]:
+    """media URLs exactly as the server's own manifest spells them (BaseURL resolution, query string
+    kept): fetch hand_made.mpd with the options, expand the SegmentTemplate of the track's
+    Representation.  The option vector of the case is read back from the followed URL."""
+    import appboot
+    q = dict(ov)
+    if start is not None:
+        q["start"] = start
+    if addr == "time":
+        q["timeline"] = "1"
+    murl = f"/dash/{mode}/{t.dir}/hand_made.mpd?{query_of(q)}"
+    with appboot.Clock(now):
+        r = app().client().get(murl)
+    if r.status_code != 200:
+        return []
+    root = ET.fromstring(r.data)
+    nowdt = datetime.datetime.fromisoformat(now.replace("Z", "+00:00"))
+    out = []
+
+    def base_of(elems, base):
+        for e in elems:
+            bu = e.find("d:BaseURL", NS)
+            if bu is not None and bu.text:
+                base = urllib.parse.urljoin(base, bu.text.strip())
+        return base
+
+    for period in root.iterfind("d:Period", NS):
+        for aset in period.iterfind("d:AdaptationSet", NS):
+            for rep in aset.iterfind("d:Representation", NS):
+                if rep.get("id") != t.name:
+                    continue
+                tmpl = rep.find("d:SegmentTemplate", NS)
+                if tmpl is None:
+                    tmpl = aset.find("d:SegmentTemplate", NS)
+                if tmpl is None:
+                    continue
+                base = base_of([root, period, aset, rep], "http://localhost" + murl)
+                media = tmpl.get("media").replace("$RepresentationID$", t.name).replace(
+                    "$Bandwidth$", rep.get("bandwidth", "0"))
+                values = []
+                if "$Time$" in media:
+                    tl = tmpl.find("d:SegmentTimeline", NS)
+                    times, cur = [], 0
+                    for sn in (tl if tl is not None else []):
+                        cur = int(sn.get("t")) if sn.get("t") is not None else cur
+                        for _ in range(int(sn.get("r", "0")) + 1):
+                            times.append(cur)
+                            cur += int(sn.get("d"))
+                    idx = sorted({0, len(times) // 2, max(0, len(times) - 2)})
+                    values = [("$Time$", times[i]) for i in idx if times]
+                else:
+                    sn0 = int(tmpl.get("startNumber", "1"))
+                    if mode == "vod":
+                        values = [("$Number$", sn0 + k) for k in sorted({0, 1, t.nseg - 1})]
+                    else:
+                        ast = datetime.datetime.fromisoformat(root.get("availabilityStartTime").replace("Z", "+00:00"))
+                        ts_, d_ = int(tmpl.get("timescale")), int(tmpl.get("duration"))
+                        last = sn0 + int((nowdt - ast).total_seconds() * ts_ // d_) - 1
+                        values = [("$Number$", n) for n in (last - 1, last - 2, last - 5) if n >= sn0]
+                for var, val in values[:limit]:
+                    u = urllib.parse.urlsplit(urllib.parse.urljoin(base, media.replace(var, str(val))))
+                    qs = dict(urllib.parse.parse_qsl(u.query, keep_blank_values=True))
+                    out.append({"src": t.spec, "mode": mode, "addr": addr, "url": u.path + "?" + u.query, "now": now,
+                                "ov": {k: v for k, v in qs.items() if k in SEMANTIC_KEYS or "__" in k},
+                                "followed": murl})
+    return out
+
+
+def fixed_cases() -> list[dict]:
+    """the seed-independent part of the quick tier (CHECKLIST: reach every class deterministically)"""
+    cases: list[dict] = []
+    fx = {t.name: t for t in fixture_tracks()}
+    # every fixture track once in a plain and once in a busy configuration
+    for t in fx.values():
+        for k in sorted({1, 2, t.nseg}):
+            for ov in ({"drm": "all"} if t.enc else {}, dict({"drm": "playready", "playready__version": "1.0"} if t.enc else {},
+                                                               events="ping", ping__interval="50")):
+                cases.append(vod_case(t, k, ov))
+    # absolute-base tracks and every traf child order
+    for spec in fixed_specs():
+        for t in synth_stream(spec):
+            for k in range(1, t.nseg + 1):
+                for ov in ([{"drm": "all"}, {"drm": "clearkey", "bugs": "saio"}, {"drm": "playready", "playready__piff": "0"},
+                            {"drm": "playready", "playready__version": "1.0", "bugs": "saio"}] if t.enc else
+                           [{}, {"events": "ping", "ping__interval": "50"}]):
+                    if "events" in ov and t.kind != "video":
+                        continue
+                    cases.append(vod_case(t, k, ov))
+    # size classes around the reader's cache window
+    for spec in size_class_specs():
+        for t in synth_stream(spec):
+            for k in range(1, t.nseg + 1):
+                for ov in ([{"drm": "all"}, {"drm": "clearkey"}] if t.enc else
+                           [{}, {"events": "ping", "ping__interval": "50"}]):
+                    cases.append(vod_case(t, k, ov))
+    # numeric / structural boundaries, stream-level defaults; both addressing modes
+    bt: list[Track] = []
+    for spec in boundary_specs():
+        bt += synth_stream(spec)
+    for t in bt:
+        for k in range(1, t.nseg + 1):
+            for ov in ([{"drm": "all"}, {"drm": "playready", "playready__piff": "1", "bugs": "saio"}] if t.enc else
+                       [{}, {"events": "ping,scte35", "ping__interval": "50", "scte35__interval": "150"}]):
+                for addr in ("number", "time"):
+                    cases.append(vod_case(t, k, ov, addr))
+    # every spelling of the DRM selection x PlayReady version / PIFF switch (given, falsy, omitted)
+    drm_tracks = [fx["bbb_v7_enc"], fx["bbb_a1_enc"]]
+    for t in drm_tracks:
+        for i, sel in enumerate(DRM_SETS):
+            for ver, piff in ((None, None), ("1.0", None), ("1.0", "0"), ("4.0", "0"), (None, "1"), ("2.0", "1"), (None, "0")):
+                ov = {"drm": sel}
+                if ver is not None:
+                    ov["playready__version"] = ver
+                if piff is not None:
+                    ov["playready__piff"] = piff
+                cases.append(vod_case(t, 1 + (i % t.nseg), ov))
+    # event option spellings: falsy count, out-of-band only, version 1, a value with multi-byte / reserved characters
+    v7 = fx["bbb_v7"]
+    for ov in ({"events": "ping", "ping__count": "0", "ping__interval": "50"},
+               {"events": "ping", "ping__inband": "0"},
+               {"events": "ping", "ping__version": "1", "ping__interval": "50", "ping__value": "ä€\U0001f600&=+%;{x}"},
+               {"events": "ping,scte35", "ping__interval": "50", "scte35__interval": "100", "ping__value": ""},
+               {"events": "scte35", "scte35__count": "1", "scte35__start": "0", "scte35__interval": "30"}):
+        for k in (1, 2, v7.nseg):
+            cases.append(vod_case(v7, k, ov))
+    # URLs as the manifests spell them (vod and live; $Number$ and $Time$), and the clock grid:
+    # sub-second phases, day / leap-day / year ends, 2038, 2100, stream age 60 s and = depth
+    grid_tracks = [fx["bbb_v7"], fx["bbb_a1_enc"], fx["tears_v1"]] + [t for t in bt if t.spec["synth"].get("defaults_cgi")]
+    for t in grid_tracks:
+        ov = {"drm": "all"} if t.enc else {"events": "ping", "ping__interval": "800"}
+        for addr in ("number", "time"):
+            cases += followed_cases(t, "vod", ov, addr, VOD_NOW)
+            for now, start in (("2024-02-29T23:59:59.999999Z", "epoch"), ("2038-01-19T03:14:08.250000Z", "epoch"),
+                               ("2100-01-01T00:00:00.500000Z", "epoch"), ("2024-03-01T00:00:00.000001Z", "2024-02-29T23:59:00Z"),
+                               ("2023-12-31T23:59:59.499999Z", "2023-12-31T23:29:59Z")):
+                cases += followed_cases(t, "live", ov, addr, now, start, limit=2)
+    # the multi-period routes (ServeMpsMedia): both periods, $Number$ and $Time$, vod and live
+    for pid, name, ts, d in (("p1", "bbb_v7", 240, 960), ("p1", "bbb_a1", 44100, 176128), ("p2", "tears_v1", 240, 960),
+                             ("p2", "tears_a1", 48000, 190464)):
+        t = fx[name]
+        ext = ext_of(t)
+        ov = {"events": "ping", "ping__interval": "200"} if t.kind == "video" else {}
+        for n in (1, 2, 3):
+            cases.append({"src": t.spec, "mode": "mps-vod", "addr": "number", "now": VOD_NOW, "ov": ov,
+                          "url": f"/mps/vod/c03mps/{{{pid}}}/{name}/{n}.{ext}?{query_of(ov)}"})
+        for k in (0, 1, 2):
+            cases.append({"src": t.spec, "mode": "mps-vod", "addr": "time", "now": VOD_NOW, "ov": ov,
+                          "url": f"/mps/vod/c03mps/{{{pid}}}/{name}/time/{k * d}.{ext}?{query_of(ov)}"})
+        cases.append({"src": t.spec, "mode": "mps-live", "addr": "number", "now": "2024-03-01T10:00:07Z", "ov": {},
+                      "url": f"/mps/live/c03mps/{{{pid}}}/{name}/2.{ext}?start=2024-03-01T09:59:00Z"})
+    return cases
+
+
 def channels(ctx):
     ch = Channel("segrewrite", rule=(
         "a media-segment request (fixture bbb/tears or mp4synth stream x option vector x vod/live x $Number$/$Time$) served by the "
@@ -758,33 +1027,15 @@ def channels(ctx):
         "distinct by (boxes around the moof, traf child kinds, encrypted, #PIFF, emsg inserted, bugs=saio, tfdt present/grown, mode, addressing)"))
     rng = ctx.rng("segrewrite")
     tracks = all_tracks(rng, ctx.scale(60, 700))
-    cases = corpus_cases()
-    # every fixture track once in a plain and once in a busy configuration (deterministic part)
-    for t in fixture_tracks():
-        for k in sorted({1, 2, t.nseg}):
-            for ov in ({"drm": "all"} if t.enc else {}, dict({"drm": "playready", "playready__version": "1.0"} if t.enc else {},
-                                                               events="ping", ping__interval="50")):
-                cases.append({"src": t.spec, "mode": "vod", "addr": "number", "url": vod_url(t, k, ov, "number"),
-                              "now": "2024-02-03T04:05:06Z", "ov": ov})
-    for spec in fixed_specs():
-        for t in synth_stream(spec):
-            for k in range(1, t.nseg + 1):
-                for ov in ([{"drm": "all"}, {"drm": "clearkey", "bugs": "saio"}, {"drm": "playready", "playready__piff": "0"},
-                            {"drm": "playready", "playready__version": "1.0", "bugs": "saio"}] if t.enc else
-                           [{}, {"events": "ping", "ping__interval": "50"}]):
-                    if "events" in ov and t.kind != "video":
-                        continue
-                    cases.append({"src": t.spec, "mode": "vod", "addr": "number", "url": vod_url(t, k, ov, "number"),
-                                  "now": "2024-02-03T04:05:06Z", "ov": ov})
-    for spec in size_class_specs():
-        for t in synth_stream(spec):
-            for k in range(1, t.nseg + 1):
-                for ov in ([{"drm": "all"}, {"drm": "clearkey"}] if t.enc else
-                           [{}, {"events": "ping", "ping__interval": "50"}]):
-                    cases.append({"src": t.spec, "mode": "vod", "addr": "number", "url": vod_url(t, k, ov, "number"),
-                                  "now": "2024-02-03T04:05:06Z", "ov": ov})
-    cases += gen_cases(rng, tracks, ctx.scale(2300, 34000))
-    evaluate(cases, ch)
+    fixed = fixed_cases()
+    cases = corpus_cases() + fixed
+    cases += gen_cases(rng, tracks, ctx.scale(1800, 34000))
+    # history: every third fixed request is issued again after everything else (other streams, modes, option
+    # vectors and clocks in between) and judged again – the property holds whatever came before
+    again = [dict(c, second_pass=True) for c in fixed[::3]]
+    evaluate(cases + again, ch)
+    for name, n in (("fixed-grid", len(fixed)), ("second-pass", len(again))):
+        ch.count(name, n)
     yield ch
 
 
@@ -836,9 +1087,9 @@ def search(ctx, disagreements):
                 return f
     rng = ctx.rng("search")
     tracks = all_tracks(rng, 60 if not ctx.thorough else 200)
-    for spec in fixed_specs():
+    for spec in fixed_specs() + size_class_specs() + boundary_specs():
         tracks += synth_stream(spec)
-    for c in gen_cases(rng, tracks, 2500 if not ctx.thorough else 20000, live_share=.3):
+    for c in fixed_cases() + gen_cases(rng, tracks, 2500 if not ctx.thorough else 20000, live_share=.3):
         f = _failing(c)
         if f:
             return f
